@@ -148,7 +148,14 @@ pub fn run_history(st: &mut CSt, sp: &Space, index: u64) {
                 if lockstep {
                     script2.set_f32_draw(k, (j * 37) & 0xFF);
                     let before2 = rec2.calls.get();
-                    let _ = by_clock.format(&IdEntry { id, group: Some(GROUP_NAMES[g]), flip: id % 3 == 1 }, &mut sink);
+                    // (the second sampler gets the entry through the entry-level flag wrappers, which are
+                    // documented to be transparent for everything but the flags: same sample group)
+                    let plain = IdEntry { id, group: Some(GROUP_NAMES[g]), flip: id % 3 == 1 };
+                    let _ = if id % 2 == 0 {
+                        by_clock.format(&metrique_writer_format_emf::HighStorageResolution::<IdEntry>::from(plain), &mut sink)
+                    } else {
+                        by_clock.format(&metrique_writer_format_emf::NoMetric::<IdEntry>::from(plain), &mut sink)
+                    };
                     let reached2 = rec2.calls.get() - before2;
                     // the sampler sums over a hash map of groups: two instances may differ in the last
                     // bits of a rate (iteration order), so rates are compared with the relative slack
